@@ -425,6 +425,8 @@ class Front2:
     # ---- routine
     def translate(self, fname, lean_name=None):
         node = {n.name: n for n in self.tree.body if isinstance(n, ast.FunctionDef)}[fname]
+        from lint import lint
+        lint(node, Untranslatable)
         fn = Fn(fname)
         c = {'fn': fn, 'env': {}, 'lets': [], 'ret': None}
         sh = self.shapes.get(fname, {})
